@@ -256,6 +256,54 @@ def norm_compare(expr: ast.AST, truth: bool):
     return src(l), op, src(r)
 
 
+_NEG_OPS = {ast.Gt: ast.LtE, ast.GtE: ast.Lt, ast.Lt: ast.GtE, ast.LtE: ast.Gt, ast.Eq: ast.NotEq, ast.NotEq: ast.Eq, ast.Is: ast.IsNot, ast.IsNot: ast.Is, ast.In: ast.NotIn, ast.NotIn: ast.In}
+
+
+def nfact(e: ast.AST, truth: bool = True):
+    """One normal form per atomic fact: (canonical text, truth) with the negation of a
+    single comparison folded into its operator (`x is None` False == `x is not None` True)."""
+    from .canon import canon
+
+    if isinstance(e, str):
+        e = ast.parse(e, mode="eval").body
+    facts = conjuncts(e, truth)
+    if len(facts) != 1:
+        return (canon(e), truth)
+    e, truth = facts[0]
+    if not truth and isinstance(e, ast.Compare) and len(e.ops) == 1 and type(e.ops[0]) in _NEG_OPS:
+        e = ast.Compare(left=e.left, ops=[_NEG_OPS[type(e.ops[0])]()], comparators=e.comparators)
+        truth = True
+    return (canon(e), truth)
+
+
+def nfacts(facts):
+    return [nfact(e, t) for e, t in facts]
+
+
+def if_arms(ifnode: ast.If, cond):
+    """(statements run when `cond` holds, statements run when it does not) if the test of
+    `ifnode` is `cond` or its negation (arms swapped), else None. Log statements are not part of an arm."""
+    from .canon import strip_noise
+
+    want = nfact(cond, True)
+    if nfact(ifnode.test, True) == want:
+        return strip_noise(ifnode.body), strip_noise(ifnode.orelse)
+    if nfact(ifnode.test, False) == want:
+        return strip_noise(ifnode.orelse), strip_noise(ifnode.body)
+    return None
+
+
+def ifs_on(root, cond):
+    """[(ifnode, then_arm, else_arm)] for every `if` under root testing `cond` or its negation."""
+    out = []
+    for n in walk_no_nested(root):
+        if isinstance(n, ast.If):
+            a = if_arms(n, cond)
+            if a is not None:
+                out.append((n, a[0], a[1]))
+    return out
+
+
 def has_fact(facts, left: str, op: str, right: str) -> bool:
     for e, t in facts:
         n = norm_compare(e, t)
